@@ -125,7 +125,8 @@ class C09(Spec):
             rid = w.url(host, "/notes/r%d" % i)
             author = alice if host == ha else bob_b
             note = {"type": "Note", "id": rid, "content": "reply %d" % i, "inReplyTo": me, "attributedTo": author}
-            kind = rng.choice(["good", "good", "other-parent", "no-parent", "foreign-author", "author-no-id", "tombstone", "not-a-post", "missing", "parent-stub"])
+            kind = rng.choice(["good", "good", "other-parent", "no-parent", "foreign-author", "author-no-id", "tombstone", "not-a-post", "missing", "parent-stub",
+                               "author-list", "author-list", "author-list"])
             genuine = False
             if kind == "good":
                 genuine = True
@@ -144,6 +145,14 @@ class C09(Spec):
             elif kind == "parent-stub":
                 note["inReplyTo"] = {"id": me}
                 genuine = True
+            elif kind == "author-list":
+                # several authors in every order: same-host actor, foreign-host actor, entries that fail to resolve
+                same = alice if host == ha else bob_b
+                foreign = bob_b if host == ha else alice
+                pool = [same, foreign, w.url(host, "/users/ghost%d" % i), 7, {"type": "Note", "content": "not an actor"}, "%zz"]
+                authors = [rng.choice(pool) for _ in range(rng.randint(2, 4))]
+                note["attributedTo"] = authors
+                genuine = foreign not in authors
             w.register_strings(note)
             if kind != "missing":
                 w.serve(rid, netgen.ok_json(stamp(note, w.host(host))))
